@@ -242,6 +242,11 @@ pub fn finalize(
             if old == new_ {
                 continue;
             }
+            // With chained renames (`a` -> `ab`, `ab` -> `abb`) an old name is also the new
+            // name of another ref: the import just created it, it must not be deleted.
+            if refs.iter().any(|(_, other_new)| other_new == old) {
+                continue;
+            }
             let old_ref = String::from_utf8_lossy(old).to_string();
             let mut matches: Vec<&String> = repo_refs_before
                 .keys()
